@@ -56,6 +56,12 @@ func caseFromSx(v sx.V) (Case, error) {
 		return limCase{limCaseFromSx(v)}, nil
 	case "limrt":
 		return &limRtCase{plan: rtPlanFromSx(v.N(4))}, nil
+	case "cfg":
+		return cfgCaseFromSx(v), nil
+	case "reload":
+		return reloadCaseFromSx(v), nil
+	case "swap":
+		return swapCase{N: int(v.N(1).Int())}, nil
 	}
 	return nil, fmt.Errorf("unknown family %q", v.N(0).Str())
 }
@@ -81,6 +87,15 @@ func generate(prop, tier string, rng *Rng) []Case {
 		return genLim(tier, rng, prop)
 	case "C05":
 		return genC05(tier, rng)
+	case "C19":
+		if os.Getenv("HX_RT") != "" {
+			n := 1500
+			if tier == "thorough" {
+				n = 15000
+			}
+			return append(genReload(tier, rng), swapCase{N: n}, swapCase{N: n})
+		}
+		return genCfg(tier, rng)
 	case "C08":
 		return genC08(tier, rng)
 	case "C15":
